@@ -197,6 +197,15 @@ def _defrag_histories(tier, seed, rng):
                 j = rng.randrange(len(ops)); f = ops[j].split(",")
                 if len(f) == 5: f[3] = str(rng.choice([0, 1, 2, 3, 4, 65535])); ops[j] = ",".join(f)
             add(ops, origin="splitk")
+    # multi-message payloads (and heartbeat padding): a cut inside the FIRST message; the second record completes it
+    # and carries what follows, so the last call must return the one-shot result of the whole payload
+    for (ct, ver, p, exp) in pool:
+        if not exp or not exp.startswith("(ok") or ct not in (22, 24) or len(p) < 4: continue
+        first = 4 + int.from_bytes(p[1:4], "big") if ct == 22 else 3 + int.from_bytes(p[1:3], "big")
+        if first >= len(p): continue
+        for c in sorted(set([0, 1, 2, 3, first - 1] + [rng.randrange(first) for _ in range(4)])):
+            if 0 <= c < first:
+                add([rec("P", ct, ver, p[:c]), rec("P", ct, ver, p[c:])], expect="defrag-split:" + exp, origin="split2-multi-oracle")
     # single-message payloads: the property's own statement is the oracle (every cut, random k-way splits)
     for (ct, ver, p, exp) in single:
         n_p = len(p)
@@ -248,6 +257,10 @@ def direct_oracle(pid, case, impl_out):
     if pid in ("C07", "C01") and case.line.startswith("defrag "):
         if "(panic)" in impl_out: return "defragmenter panicked"
         import re, vlib
+        if impl_out.startswith("(defrag"):
+            for body, p, b in _defrag_items(impl_out):
+                if body.startswith("(ok") and p != "0":
+                    return "a call that returns Ok ends defragmentation (defrag_in_progress() must be false after it)"
         if case.expect.startswith("defrag-split:") and impl_out.startswith("(defrag"):
             want = case.expect[len("defrag-split:"):]
             items = _defrag_items(impl_out)
